@@ -56,6 +56,11 @@ pub trait Prop: Sync {
     }
     /// Called once per worker thread before its first run (e.g. to set the buffer limit knob).
     fn thread_init(&self) {}
+    /// Properties whose runs issue real syscalls: a run that stays inside one execution longer
+    /// than this many wall-clock seconds is reported as `<id>/blocked-thread`.
+    fn watchdog_secs(&self) -> Option<u64> {
+        None
+    }
 }
 
 pub struct RunOut {
@@ -227,17 +232,46 @@ pub fn run_batch(prop: &dyn Prop, opt: &Options) -> i32 {
     let next = AtomicUsize::new(0);
     let min_fail = AtomicU64::new(u64::MAX);
     let agg = Mutex::new(Agg::default());
+    // watchdog slots: (job index + 1, start time in ms since t0); 0 = idle
+    let slots: Vec<(AtomicU64, AtomicU64)> = (0..opt.workers).map(|_| (AtomicU64::new(0), AtomicU64::new(0))).collect();
+    let all_done = std::sync::atomic::AtomicBool::new(false);
 
     std::thread::scope(|s| {
-        for _ in 0..opt.workers {
-            s.spawn(|| {
+        if let Some(limit) = prop.watchdog_secs() {
+            let (slots, all_done, jobs) = (&slots, &all_done, &jobs);
+            s.spawn(move || {
+                while !all_done.load(Ordering::Relaxed) {
+                    std::thread::sleep(std::time::Duration::from_millis(500));
+                    let now = t0.elapsed().as_millis() as u64;
+                    for (job, start) in slots.iter() {
+                        let j = job.load(Ordering::Relaxed);
+                        if j != 0 && now.saturating_sub(start.load(Ordering::Relaxed)) > limit * 1000 {
+                            let idx = (j - 1) as usize;
+                            let class = format!("{id}/blocked-thread");
+                            let path = write_blocked_replay(prop, opt, idx, &class, &jobs[idx], limit);
+                            println!("violation class={class} job={idx}: one execution did not return within {limit}s of wall-clock time (a thread is blocked inside a syscall or spinning)");
+                            println!("VIOLATION property={id} replay={}", path.display());
+                            std::process::exit(1);
+                        }
+                    }
+                }
+            });
+        }
+        let mut handles = Vec::new();
+        for wi in 0..opt.workers {
+            let slot = &slots[wi];
+            let (next, min_fail, agg, jobs, known_classes) = (&next, &min_fail, &agg, &jobs, &known_classes);
+            handles.push(s.spawn(move || {
                 prop.thread_init();
                 let mut local = Agg::default();
                 loop {
                     let i = next.fetch_add(1, Ordering::Relaxed);
                     if i >= n_jobs || (i as u64) > min_fail.load(Ordering::Relaxed) {
+                        slot.0.store(0, Ordering::Relaxed);
                         break;
                     }
+                    slot.1.store(t0.elapsed().as_millis() as u64, Ordering::Relaxed);
+                    slot.0.store(i as u64 + 1, Ordering::Relaxed);
                     let want_sample = i < 2 || i == n_sys || i == n_sys + 1 || i + 1 == n_jobs;
                     let out = run_one(prop, tape_for(&jobs[i], opt.seed, id), false, want_sample);
                     local.evals += 1;
@@ -286,8 +320,12 @@ pub fn run_batch(prop: &dyn Prop, opt: &Options) -> i32 {
                 a.det_checked += local.det_checked;
                 a.det_mismatch.extend(local.det_mismatch);
                 a.failures.extend(local.failures);
-            });
+            }));
         }
+        for h in handles {
+            let _ = h.join();
+        }
+        all_done.store(true, Ordering::Relaxed);
     });
 
     let mut a = agg.into_inner().unwrap();
@@ -413,6 +451,32 @@ pub fn run_batch(prop: &dyn Prop, opt: &Options) -> i32 {
     exit
 }
 
+fn write_blocked_replay(prop: &dyn Prop, opt: &Options, idx: usize, class: &str, job: &Job, limit: u64) -> PathBuf {
+    let dir = verif_dir().join("replays");
+    let _ = std::fs::create_dir_all(&dir);
+    let path = dir.join(format!("{}-{}-{}-{}.json", prop.id(), opt.seed, idx, class.replace('/', "_")));
+    let (tape, gen_seed) = match job {
+        Job::Sys(v) => (json!(v), Value::Null),
+        Job::Rand(i) => (Value::Null, json!(seed_for(opt.seed, prop.id(), *i))),
+    };
+    let v = json!({
+        "property": prop.id(),
+        "kind": "violation",
+        "tier": opt.tier.name(),
+        "seed": opt.seed,
+        "job_index": idx,
+        "class": class,
+        "message": format!("execution did not return within {limit}s"),
+        "history_hash": "",
+        "tape": tape,
+        "tape_generator_seed": gen_seed,
+        "watchdog_secs": limit,
+        "note": "the execution never finished, so its tape could not be recorded or minimised; the replay regenerates it from tape_generator_seed",
+    });
+    std::fs::write(&path, serde_json::to_string_pretty(&v).unwrap() + "\n").expect("write replay");
+    path
+}
+
 fn write_replay(
     prop: &dyn Prop,
     opt: &Options,
@@ -429,6 +493,7 @@ fn write_replay(
     let v = json!({
         "property": prop.id(),
         "kind": kind,
+        "tier": opt.tier.name(),
         "seed": opt.seed,
         "job_index": idx,
         "class": class,
@@ -543,11 +608,25 @@ pub fn replay_file(prop: &dyn Prop, path: &str) -> i32 {
         }
     };
     let v: Value = serde_json::from_str(&s).expect("replay file must be JSON");
-    let tape: Vec<u32> = serde_json::from_value(v["tape"].clone()).expect("tape");
     let class = v["class"].as_str().unwrap_or("").to_string();
     let want_hash = v["history_hash"].as_str().unwrap_or("").to_string();
+    let tape = match v["tape_generator_seed"].as_u64() {
+        Some(seed) => Tape::generate(seed),
+        None => Tape::replay(serde_json::from_value(v["tape"].clone()).expect("tape")),
+    };
+    if let Some(limit) = prop.watchdog_secs() {
+        let limit = v["watchdog_secs"].as_u64().unwrap_or(limit);
+        let (id, path2, class2) = (prop.id(), path.to_string(), class.clone());
+        std::thread::spawn(move || {
+            std::thread::sleep(std::time::Duration::from_secs(limit));
+            println!("replayed: class={id}/blocked-thread message=execution did not return within {limit}s");
+            println!("exact reproduction of recorded history: {}", if class2.ends_with("/blocked-thread") { "yes" } else { "NO (the file records another class)" });
+            println!("VIOLATION property={id} replay={path2}");
+            std::process::exit(1);
+        });
+    }
     prop.thread_init();
-    let out = run_one(prop, Tape::replay(tape), true, true);
+    let out = run_one(prop, tape, true, true);
     if let Some(t) = &out.trace {
         for l in t {
             println!("{l}");
